@@ -26,6 +26,8 @@ impl Toks {
 }
 fn unhex(h: &str) -> Vec<u8> { (0..h.len() / 2).map(|i| u8::from_str_radix(&h[2 * i..2 * i + 2], 16).unwrap()).collect() }
 fn hex(b: &[u8]) -> String { b.iter().map(|x| format!("{:02x}", x)).collect() }
+static WIDE_SUM: std::sync::atomic::AtomicBool = std::sync::atomic::AtomicBool::new(false);
+fn wide(h: u32) -> u64 { if WIDE_SUM.load(std::sync::atomic::Ordering::SeqCst) { (h as u64) * 0x100000001 } else { h as u64 } }
 struct TestSvc { kind: &'static str }
 impl ChecksumService for TestSvc {
     fn calc(&self, buf: &BytesMut) -> Checksum {
@@ -33,8 +35,8 @@ impl ChecksumService for TestSvc {
         for c in buf.iter() { h = (h.wrapping_mul(131).wrapping_add(*c as u32).wrapping_add(1)) & 0x7fffffff; }
         if h & 7 == 0 { h = 0; }
         match self.kind {
-            "u8" => Checksum::U8(h as u8), "u16" => Checksum::U16(h as u16), "u32" => Checksum::U32(h), "u64" => Checksum::U64(h as u64),
-            "i8" => Checksum::I8(h as i8), "i16" => Checksum::I16(h as i16), "i32" => Checksum::I32(h as i32), _ => Checksum::I64(h as i64),
+            "u8" => Checksum::U8(h as u8), "u16" => Checksum::U16(h as u16), "u32" => Checksum::U32(h), "u64" => Checksum::U64(wide(h)),
+            "i8" => Checksum::I8(h as i8), "i16" => Checksum::I16(h as i16), "i32" => Checksum::I32(h as i32), _ => Checksum::I64(wide(h) as i64),
         }
     }
 }
@@ -181,7 +183,7 @@ fn handle(line: &str) -> String {
     let parts: Vec<&str> = line.splitn(4, ' ').collect();
     let id = if parts.len() > 1 { parts[1].to_string() } else { "-".to_string() };
     match parts[0] {
-        "CKS" => { set_checksums(parts[1] == "1"); "R - ok".to_string() }
+        "CKS" => { WIDE_SUM.store(parts[1] == "2", std::sync::atomic::Ordering::SeqCst); set_checksums(parts[1] != "0"); "R - ok".to_string() }
         "REUSE" => "R - ok".to_string(),
         "ENC" => {
             let arg = if parts.len() > 3 { parts[3] } else { "" };
